@@ -469,8 +469,8 @@ def run(ctx):
     # ------------------------------------------------------------------ Engine A: event-publishing variants
     k = 3 if ctx.tier == "quick" else 4
     ctx.crosshair([Cond(f"event-tally/K={k}(subscriber attached: register never raises, every published value equals its getter)",
-                        "c09", "h_eb_tally", {"VF_K": k}, 900),
-                   Cond(f"counter+event-counter/K={k}(symbolic ints)", "c09", "h_counter", {"VF_K": k}, 900)])
+                        "c09", "h_eb_tally", {"VF_K": k}, 900 if ctx.tier == "quick" else 3600),
+                   Cond(f"counter+event-counter/K={k}(symbolic ints)", "c09", "h_counter", {"VF_K": k}, 900 if ctx.tier == "quick" else 3600)])
     ctx.bounds = {"tally": "inductive over exact reals: arbitrary ghost state (n>=1, raw power sums, min, max) + one register; "
                            "no bound on history length; getters on every realisable invariant state",
                   "event variants": f"{k} observations from a 5-value grid incl. repeats and 1e6, optional initialize in between",
